@@ -6,6 +6,7 @@ Pop3.tla with Pop3Trace.tla.
 import json
 import os
 import random
+import re
 
 from lib.vlib import Inconclusive
 
@@ -290,6 +291,18 @@ def stls_stage(run, vh, quick):
                 res.append("timeout")
         run.cov["stages"].append({"stage": "inductive-invariant", "module": "Pop3TlsTyped (Apalache)", "init_implies_inv": res[0], "inv_is_inductive": res[1]})
         run.log("Apalache: Init => IndInv: %s; IndInv /\\ Next => IndInv': %s" % tuple(res))
+    # for ANY set of connections: the TLA+ proof system proves TSpec => [](TypeOK /\ NeedsConfig) (spec/proofs/Pop3TlsProofs.tla)
+    if shutil.which("tlapm"):
+        d = tempfile.mkdtemp(prefix="tlaps-", dir=run.work)
+        shutil.copy(os.path.join(os.path.dirname(os.path.dirname(os.path.abspath(__file__))), "spec", "proofs", "Pop3TlsProofs.tla"), d)
+        try:
+            p = subprocess.run(["tlapm", "--threads", "8", "Pop3TlsProofs.tla"], cwd=d, capture_output=True, text=True, timeout=600)
+            m = re.search(r"All (\d+) obligations? proved", p.stdout + p.stderr)
+            outcome = ("all %s obligations proved" % m.group(1)) if m else "not all obligations proved"
+        except subprocess.TimeoutExpired:
+            outcome = "timeout"
+        run.cov["stages"].append({"stage": "proof", "module": "Pop3TlsProofs (TLAPS)", "outcome": outcome})
+        run.log("TLAPS: Pop3TlsProofs: %s" % outcome)
 
 
 def c13(run, args):
